@@ -468,6 +468,61 @@ def respell_sx(c, a, b):
                                                "".join(" " + hexs(t) for t in b))
 
 
+# ------------------------------------------------------------------ directed pairs outside the scan's class
+import hashlib as _hashlib
+import re
+
+EQ_RE = re.compile(r" \(x-equal (\w+)\)")
+
+
+def mark_equal(case):
+    """`(x-equal SUM)` inside the command spec (ignored by both builders): the two lines are spellings of one invocation
+    by construction.  The checksum covers the rest of the case, so a shrunk or edited case loses the claim."""
+    h = _hashlib.sha1(case.encode()).hexdigest()[:12]
+    i = case.index(") (argv")
+    return case[:i] + " (x-equal %s)" % h + case[i:]
+
+
+def marked_equal(case):
+    m = EQ_RE.search(case)
+    if not m:
+        return False
+    plain = case[:m.start()] + case[m.end():]
+    return _hashlib.sha1(plain.encode()).hexdigest()[:12] == m.group(1)
+
+
+def gen_directed_pairs():
+    """alias <-> canonical name at levels whose current positional accepts hyphen values or negative numbers: the scan
+    gives up on such levels (a dash-looking token may be a value), but a token whose every character is a defined short
+    (resp. whose name is a defined long) IS that flag/option in ValuesDone state, under either spelling (seeded change
+    C08-1: the pre-check of the cluster and the cluster walk must agree on aliases)."""
+    out = []
+    for posflag in ("hyphen", "negnum", None):
+        pflags = {posflag} if posflag else set()
+        c = {"name": b"p", "about": b"A:p", "groups": [], "aliases": [], "settings": [], "subs": [
+                {"name": b"run", "about": b"A:run", "aliases": [(b"r", True), (b"exec", False)], "groups": [], "subs": [],
+                 "settings": [], "args": [{"id": b"n", "short": "n", "saliases": [("N", True)], "action": "count", "flags": set()},
+                                          {"id": b"rest", "num": (0, None), "flags": set(pflags)}]}],
+             "args": [{"id": b"inv", "short": "v", "long": b"invert", "saliases": [("V", True), ("i", False)],
+                       "aliases": [(b"inv", True), (b"flip", False)], "action": "settrue", "flags": set()},
+                      {"id": b"q", "short": "q", "action": "count", "flags": set()},
+                      {"id": b"out", "short": "o", "long": b"out", "saliases": [("O", False)], "aliases": [(b"output", True)],
+                       "action": "set", "flags": set()},
+                      {"id": b"pattern", "flags": set(pflags)}]}
+        pairs = [([b"-V"], [b"-v"]), ([b"-i"], [b"-v"]), ([b"-qV", b"needle"], [b"-qv", b"needle"]),
+                 ([b"-Vq"], [b"-vq"]), ([b"-qqi", b"x"], [b"-qqv", b"x"]), ([b"--inv", b"x"], [b"--invert", b"x"]),
+                 ([b"--flip"], [b"--invert"]), ([b"-Oval"], [b"-oval"]), ([b"-O", b"val"], [b"-o", b"val"]),
+                 ([b"-qOval", b"x"], [b"-qoval", b"x"]), ([b"--output=f", b"x"], [b"--out=f", b"x"]),
+                 ([b"--output", b"f"], [b"--out", b"f"]), ([b"x", b"-V"], [b"x", b"-v"]),
+                 ([b"r", b"-N"], [b"run", b"-n"]), ([b"exec", b"-nN", b"a"], [b"run", b"-nn", b"a"]),
+                 ([b"-V", b"r", b"-N", b"a"], [b"-v", b"run", b"-n", b"a"])]
+        for a, b in pairs:
+            if posflag == "hyphen" and any(t in (b"-Oval", b"-qOval") for t in a):
+                continue        # under a hyphen-value positional a cluster with an undefined character (`-Oval`) is a VALUE
+            out.append(mark_equal(respell_sx(c, [b"prog"] + a, [b"prog"] + b)))
+    return out
+
+
 def gen_respell(rng, n, stats, adversarial=False, only_ambig=False):
     prof = gen_cmd.Profile(**PROFILE)
     out = []
@@ -598,6 +653,9 @@ def oracle(case, impl):
         return None
     if a == b:
         return None if ra == rb else "the same command line parsed twice gives different results: %s vs %s" % (ra, rb)
+    if marked_equal(case):
+        return None if ra == rb else "equivalent spellings (alias vs canonical name) parse differently: A=%s B=%s" % (
+            ra[:600], rb[:600])
     # one scan decides whether B is an ambiguous-prefix replacement in A
     if any(k.startswith("AMBIG") and nb == b for k, nb in scan(cmd, a)):
         if rb.startswith("ok "):
@@ -650,6 +708,9 @@ def streams(tier, rng):
                         ("ambiguous", 1000 if q else 15000, {"only_ambig": True})]:
         stats = Counter()
         cases = gen_respell(rng, n, stats, **kw)
+        if name == "respell":
+            cases = gen_directed_pairs() + cases
+            stats["directed alias pairs (hyphen/negnum positional)"] = len(gen_directed_pairs())
         out.append(Stream(name, cases, oracle=oracle, area="c08", project=project, nontrivial=nontrivial,
                           describe=dict(sorted(stats.items()))))
     return out
